@@ -46,6 +46,20 @@ ranges, lengths, byte values or sample inputs anywhere in this module)
   for its role, every derivation for its seed (an `aes_rand` field / the wrapper's own parameter), terms compared
   structurally / by node identity of their defining expression.
 * R6 escape set: csverif.effects (engine; (1)/(2)).  R7: obligations of C19.R4 (imported).
+* R8 every metadata encrypt_metadata produces is accepted by decrypt_metadata (no rejection for a well-formed metadata):
+  the same value flow (`_Flow`, (2)/(3)) under the named assumption "the blob is a correctly encrypted metadata and no
+  library call raises" (implicit exception edges are not followed), with the parsed fields in the *interval domain* (4)
+  read from the C definition (1)/(6): magic = 0xBEEF; the length field of the trailing array `info[size - k]` is the
+  interval [k, k + 256 - 11 - fixed] (size = k + len(info), 0 <= len(info), fixed + len(info) <= modulus - 11 for the
+  largest modulus of the property, RSA-2048); every other integer field is the whole interval of its width; arrays are
+  opaque; len(plaintext) is the length field + (fixed - k).  Branch tests are decided by the interval / counting lemmas
+  of `_cmp_other` (is the part of the interval that makes the comparison true / false empty?), the interval transfer
+  of `+ c` / `- c`, `s + a <op> s + b <=> a <op> b`, `truthy <=> != 0`; the serialised length of a default-constructed
+  structure (`len(BeaconMetadata())`, also through a module constant) is read from the C definition (6).  A `raise` /
+  failing `assert` outside a handler is a violation when a path of *decided* branch outcomes with at most one
+  "both outcomes occur" test leads to it (graph search `_Flow.both_count`; two such tests may be correlated: nothing is
+  claimed), undecided when it is only reached through tests that cannot be evaluated, discharged when it is not reached.
+  No value of any field is enumerated or tried.
 """
 
 from __future__ import annotations
@@ -94,13 +108,80 @@ def _cenv(ctx, f):
         try:
             return const_eval(mod.consts[sym.name], module_env(mod))
         except NotConst:
-            raise KeyError(name)
+            # integer arithmetic over the serialised length of a default-constructed structure of the package
+            # (`len(S()) - 8`): constant folding (6) with that length read from the C definition
+            e = mod.consts[sym.name]
+            sub = _Env(consts=module_env(mod))
+            for c in ast.walk(e):
+                n = _default_struct_len(ctx, mod.name, c)
+                if n is not None:
+                    dict.__setitem__(sub, src(c), n)
+            try:
+                n = _val(e, sub) if len(sub) else None
+            except _Unk:
+                n = None
+            if not isinstance(n, int) or isinstance(n, bool):
+                raise KeyError(name)
+            return n
 
     cache[f.fq] = env
     return env
 
 
 # ======================================================================================================= generic helpers
+def _count_form(fld):
+    """Linear form of the array-length expression of a field of a C definition (None: not an array / not linear)."""
+    if fld is None or not fld.count:
+        return None
+    try:
+        return _lin_norm(_lin(ast.parse(fld.count.strip(), mode="eval").body))
+    except SyntaxError:
+        return None
+
+
+def _default_struct_len(ctx, modname, e):
+    """Value of `len(S())` / `len(S().dumps())` / `len(bytes(S()))` for a cstruct type S of the package, from the parsed C
+    definition: the serialised length of a default-constructed structure.  Library lemma (dissect.cstruct): every field of
+    a default-constructed structure is 0 / empty, and an array whose computed length is not positive serialises to
+    nothing; so the length is the fixed part plus max(c, 0) elements of the one trailing variable array whose length
+    expression is linear in the integer fields with constant term c.  None if e is not of that form."""
+    from csverif import AnalysisError
+
+    if not (isinstance(e, ast.Call) and dotted(e.func) == "len" and len(e.args) == 1 and not e.keywords):
+        return None
+    x = e.args[0]
+    while True:
+        if isinstance(x, ast.Call) and dotted(x.func) == "bytes" and len(x.args) == 1 and not x.keywords:
+            x = x.args[0]
+        elif isinstance(x, ast.Call) and isinstance(x.func, ast.Attribute) and x.func.attr == "dumps" and not x.args and not x.keywords:
+            x = x.func.value
+        else:
+            break
+    if not (isinstance(x, ast.Call) and not x.args and not x.keywords and dotted(x.func)):
+        return None
+    sym = ctx.rs.lookup_dotted(modname, dotted(x.func))
+    if sym is None or sym.kind != "struct":
+        return None
+    try:
+        cd = ctx.cdefs(sym.module).get(sym.cdef_var)
+        st = cd.struct(sym.name) if cd is not None else None
+    except AnalysisError:
+        return None
+    if st is None:
+        return None
+    if st.static_size is not None:
+        return st.static_size
+    dyn = [x for x in st.fields if x.size is None]
+    if len(dyn) != 1 or dyn[0] is not st.fields[-1]:
+        return None
+    lf = _count_form(dyn[0])
+    scalars = {x.name for x in st.fields if x.count is None and x.size is not None}
+    el = cd.type_size(dyn[0].type)
+    if lf is None or not set(lf) <= scalars | {""} or el is None or not el[0]:
+        return None
+    return st.fixed_prefix_size + max(lf.get("", 0), 0) * el[0]
+
+
 def _unbytes(e):
     """`bytes(x)` / `bytearray(x)` / `memoryview(x)` / `cast(T, x)` -> x (a copy / view of a bytes value is the same value)."""
     while True:
@@ -246,11 +327,16 @@ class _Sym:
     assumed about it.  An `anon` symbol stands for *some* value with those facts (several different values may be
     represented by the same anonymous symbol: it is never equal / identical to anything, itself included)."""
 
-    def __init__(self, label, truth=None, notnone=False, anon=False, cls=None, ne=(), width=None, masked=None):
+    def __init__(self, label, truth=None, notnone=False, anon=False, cls=None, ne=(), width=None, masked=None, rng=None, length=None, pytype=None, affine=None):
         self.label, self.truth, self.notnone, self.anon, self.cls = label, truth, notnone, anon, cls
         # an unsigned integer field of `width` bits about which only `value not in ne` is assumed ("any other value");
-        # masked = (that symbol, M): the symbol is `value & M`
+        # masked = (that symbol, M): the symbol is `value & M`;
+        # rng = (lo, hi): an integer about which only `lo <= value < hi` (and `value not in ne`) is assumed - the interval
+        # domain; an unsigned field of `width` bits without an explicit interval has the interval [0, 2^width)
         self.ne, self.width, self.masked = frozenset(ne), width, masked
+        self.rng = rng if rng is not None else (0, 1 << width) if width else None
+        self.length, self.pytype = length, pytype  # the value of len(<this value>) / its builtin type, where assumed
+        self.affine = affine  # (symbol s, integer c): this value is s + c
 
     def __repr__(self):
         return f"<{self.label}>"
@@ -299,6 +385,9 @@ def _facts(v):
 def _truth(v):
     if isinstance(v, _Sym):
         if v.truth is None:
+            if v.rng is not None and v.masked is None:
+                # lemma: an integer is truthy iff it is != 0 - the comparison of the interval value with the constant 0
+                return _cmp_other(v, ast.NotEq(), 0, False)
             raise _Unk()
         return v.truth
     return bool(v)
@@ -356,6 +445,18 @@ def _val(e, env):
                 if m & full == full:
                     return o  # x & 0xFF..F == x for a field of that width
                 return _Sym(f"{o.label} & {m:#x}", anon=True, notnone=True, masked=(o, m & full))
+        if isinstance(e.op, (ast.Add, ast.Sub)) and (isinstance(a, _Sym) != isinstance(b, _Sym)):
+            # interval transfer: [lo, hi) + c = [lo + c, hi + c), [lo, hi) - c = [lo - c, hi - c), c - [lo, hi) = (c - hi, c - lo]
+            # (Python integers do not wrap); only for a value about which nothing but its interval is assumed
+            o, c = (a, b) if isinstance(a, _Sym) else (b, a)
+            if o.rng is not None and o.masked is None and not o.ne and isinstance(c, int) and not isinstance(c, bool):
+                lo, hi = o.rng
+                base, off = o.affine or (o, 0)
+                if isinstance(e.op, ast.Add):
+                    return _Sym(f"({src(e)})", anon=True, notnone=True, rng=(lo + c, hi + c), affine=(base, off + c))
+                if o is a:
+                    return _Sym(f"({src(e)})", anon=True, notnone=True, rng=(lo - c, hi - c), affine=(base, off - c))
+                return _Sym(f"({src(e)})", anon=True, notnone=True, rng=(c - hi + 1, c - lo + 1))
         if isinstance(a, _Sym) or isinstance(b, _Sym):
             raise _Unk()
         try:
@@ -403,6 +504,8 @@ def _val(e, env):
             if name == "bool":
                 return _truth(v)
             if isinstance(v, _Sym):
+                if v.length is not None:
+                    return v.length
                 raise _Unk()
             try:
                 return len(v)
@@ -413,16 +516,18 @@ def _val(e, env):
         if name == "isinstance" and len(e.args) == 2:
             v = _val(e.args[0], env)
             ts = e.args[1].elts if isinstance(e.args[1], ast.Tuple) else [e.args[1]]
-            if isinstance(v, _Sym) or not all(dotted(t) in _TYPES for t in ts):
+            if not all(dotted(t) in _TYPES for t in ts) or (isinstance(v, _Sym) and v.pytype is None):
                 raise _Unk()
+            if isinstance(v, _Sym):
+                return issubclass(v.pytype, tuple(_TYPES[dotted(t)] for t in ts))
             return isinstance(v, tuple(_TYPES[dotted(t)] for t in ts))
     raise _Unk()
 
 
 def _free(o, lo, hi):
     """Number of values v of the field o with lo <= v < hi that are not excluded: size of the interval clipped to the range
-    of the field minus the excluded constants that lie in it (interval arithmetic; the field is not enumerated)."""
-    lo, hi = max(lo, 0), min(hi, 1 << o.width)
+    of the field (its interval `rng`) minus the excluded constants that lie in it (interval arithmetic; the field is not enumerated)."""
+    lo, hi = max(lo, o.rng[0]), min(hi, o.rng[1])
     return max(hi - lo, 0) - sum(1 for x in o.ne if isinstance(x, int) and lo <= x < hi)
 
 
@@ -431,15 +536,22 @@ _FLIP = {ast.Lt: ast.Gt, ast.LtE: ast.GtE, ast.Gt: ast.Lt, ast.GtE: ast.LtE}
 
 def _cmp_other(o, op, k, mirrored):
     """Comparison of o = "any value of the field except those in o.ne" (or such a value masked) with the constant k.
-    Lemmas (v ranges over V = the unsigned `width`-bit values not in the finite set ne; |S| is counted by `_free`):
+    Lemmas (v ranges over V = the values of the interval of o - [0, 2^width) for an unsigned `width`-bit field, or the
+    stated interval [lo, hi) - that are not in the finite set ne; |S| is counted by `_free`):
       * v == k: the values of V that make it true are V & {k}, those that make it false V - {k}.  So it is False for k in
         ne or out of range; otherwise true for v = k, and false for some v iff |V| >= 2 (both outcomes occur);
       * v in (k1, .., kn): true on V & {k1..kn}, false on V - {k1..kn}; decided / both outcomes by the same counting;
-      * v < k (<=, >, >=; `k < v` is `v > k`): true exactly on an interval of the field ([0, k), [0, k], (k, 2^w),
-        [k, 2^w)), false on its complement; the outcome is decided if one of the two sets has no element of V, and both
+      * v < k (<=, >, >=; `k < v` is `v > k`): true exactly on an interval of the field ([lo, k), [lo, k], (k, hi),
+        [k, hi)), false on its complement; the outcome is decided if one of the two sets has no element of V, and both
         outcomes occur if both have one;
+      * s + a <op> s + b <=> a <op> b for two values that are the same symbol s plus constants;
       * (v & M) == (c & M) for ne == {c} and M neither 0 nor all ones: both outcomes occur (v = c with a bit outside M
         flipped is in V and agrees with c on M; v = c with a bit inside M flipped is in V and disagrees on M)."""
+    if isinstance(k, _Sym) and o.masked is None and k.masked is None and k.rng is not None and type(op) in (ast.Eq, ast.NotEq, ast.Lt, ast.LtE, ast.Gt, ast.GtE):
+        # lemma: s + a <op> s + b  <=>  a <op> b (two values that are the same symbol plus constants)
+        (bo, a), (bk, b) = o.affine or (o, 0), k.affine or (k, 0)
+        if bo is bk and not bo.anon:
+            return _cmp(b, op, a) if mirrored else _cmp(a, op, b)
     if isinstance(k, _Sym) or isinstance(k, bool) or not isinstance(k, (int, tuple)):
         raise _Unk()
     if o.masked is not None:
@@ -448,7 +560,8 @@ def _cmp_other(o, op, k, mirrored):
         if isinstance(op, (ast.Eq, ast.NotEq)) and isinstance(k, int) and len(base.ne) == 1 and 0 < m < full and k == (next(iter(base.ne)) & m):
             raise _Both()
         raise _Unk()
-    total = _free(o, 0, 1 << o.width)
+    rlo, rhi = o.rng
+    total = _free(o, rlo, rhi)
     if isinstance(op, (ast.Eq, ast.NotEq, ast.In, ast.NotIn)):
         if isinstance(op, (ast.In, ast.NotIn)):
             if mirrored or not isinstance(k, tuple) or not all(isinstance(x, int) and not isinstance(x, bool) for x in k):
@@ -463,7 +576,7 @@ def _cmp_other(o, op, k, mirrored):
         positive = isinstance(op, (ast.Eq, ast.In))
     elif type(op) in _FLIP and isinstance(k, int):
         t = _FLIP[type(op)] if mirrored else type(op)
-        lo, hi = {ast.Lt: (0, k), ast.LtE: (0, k + 1), ast.Gt: (k + 1, 1 << o.width), ast.GtE: (k, 1 << o.width)}[t]
+        lo, hi = {ast.Lt: (rlo, k), ast.LtE: (rlo, k + 1), ast.Gt: (k + 1, rhi), ast.GtE: (k, rhi)}[t]
         yes = _free(o, lo, hi)
         no = total - yes
         positive = True
@@ -478,7 +591,7 @@ def _cmp_other(o, op, k, mirrored):
 
 def _cmp(a, op, b):
     for o, k, mirrored in ((a, b, False), (b, a, True)):
-        if isinstance(o, _Sym) and (o.width or o.masked is not None):
+        if isinstance(o, _Sym) and (o.rng is not None or o.masked is not None):
             return _cmp_other(o, op, k, mirrored)
     sym = isinstance(a, _Sym) or isinstance(b, _Sym)
     if any(isinstance(x, _Sym) and x.anon for x in (a, b)):
@@ -504,7 +617,10 @@ def _cmp(a, op, b):
         if sym:
             if a is not b:
                 o, k = (a, b) if isinstance(a, _Sym) else (b, a)
-                if not (k is None and o.notnone):
+                # lemma: equal values of the builtin types have the same truthiness, so a value of known truthiness is
+                # not equal to a constant of the other truthiness (`pt == b""` for a non-empty pt)
+                differ = not isinstance(k, _Sym) and isinstance(k, (bytes, str, int, tuple, type(None))) and o.truth is not None and bool(k) != o.truth
+                if not (k is None and o.notnone) and not differ:
                     raise _Unk()
             eq = a is b
         else:
@@ -553,8 +669,9 @@ def _tv(e, env):
     try:
         return _truth(_val(e, env))
     except _Both:
-        # only a single comparison `assumed value <op> constant` carries the lemma (see _val / _cmp_other)
-        return BOTH if isinstance(e, ast.Compare) and len(e.ops) == 1 else None
+        # only a single comparison `assumed value <op> constant` carries the lemma (see _val / _cmp_other); the truth of
+        # the assumed value itself is the comparison `value != 0` (see _truth)
+        return BOTH if (isinstance(e, ast.Compare) and len(e.ops) == 1) or isinstance(e, (ast.Name, ast.Attribute)) else None
     except _Unk:
         return None
 
@@ -587,11 +704,15 @@ class _Flow:
 
     NOVAL = object()
 
-    def __init__(self, ctx, f, fixed, taint=frozenset(), stop=frozenset(), magic_attr=None):
+    def __init__(self, ctx, f, fixed, taint=frozenset(), stop=frozenset(), magic_attr=None, no_exceptions=False):
         self.cfg, self.fn, self.fixed = ctx.cfg(f), f.node, fixed
-        self.taint, self.stop, self.magic_attr = set(taint), set(stop), magic_attr
+        # no_exceptions: the assumption "no statement raises implicitly" - only an explicit `raise` enters a handler
+        self.no_exceptions = no_exceptions
+        self.taint, self.stop = set(taint), set(stop)
+        self.attrs = {magic_attr} if isinstance(magic_attr, str) else set(magic_attr or ())  # attributes with an assumed value
         self.IN = {}
         self._opaque = {}
+        self.verdict = {}  # id(if / while statement) -> True | False | BOTH | None of its test for the values that reach it
         self._run()
 
     # ------------------------------------------------------------------ evaluation
@@ -712,6 +833,7 @@ class _Flow:
                 out = self._transfer(st, vals, names)
                 if isinstance(st, (ast.If, ast.While)):
                     v = self._truth3(st.test, out[0])
+                    self.verdict[id(st)] = v
                     self._opaque.pop(id(st), None)
                     if v is True or v is False:
                         dead = cfg.edge_node(st, "false" if v else "true")
@@ -720,6 +842,8 @@ class _Flow:
                         self._opaque[id(st)] = st
             else:
                 out = (vals, names)
+            if self.no_exceptions and not isinstance(st, ast.Raise):
+                succs = [x for x in succs if x[0] != "fin" and not isinstance(cfg.stmt.get(x), ast.ExceptHandler)]
             for x in succs:
                 new = self._join(self.IN.get(x), out)
                 if x not in self.IN or not self._eq(self.IN[x], new):
@@ -729,8 +853,8 @@ class _Flow:
     def _looks_at(self, test, names):
         if self._tainted(test, names) or self._tainted(inline(self.fn, test), names):
             return True
-        if self.magic_attr:
-            return any(isinstance(n, ast.Attribute) and n.attr == self.magic_attr for e in (test, inline(self.fn, test)) for n in ast.walk(e))
+        if self.attrs:
+            return any(isinstance(n, ast.Attribute) and n.attr in self.attrs for e in (test, inline(self.fn, test)) for n in ast.walk(e))
         return False
 
     # ------------------------------------------------------------------ results
@@ -749,6 +873,49 @@ class _Flow:
 
     def tainted(self, st, expr):
         return self.live(st) and self._tainted(expr, self.IN[self.cfg.node(st)][1])
+
+    def both_count(self, caught=None):
+        """`caught`: {id(raise statement): handler that catches it} - the only edges into handlers that are followed.
+        {CFG node: the least number of tests with verdict BOTH on a path ENTRY -> node} over the paths that use only
+        normal edges (no edge into an exception handler / finally entry), follow every decided test on its feasible side
+        and pass no test that could not be evaluated (and no `for` header: the number of iterations is not known).  A node
+        with count 0 is reached under the assumptions whatever the assumed values are; a node with count 1 is reached for
+        some of the assumed values (the lemma behind the one BOTH verdict says so); two BOTH tests on a path may be
+        correlated, so nothing is claimed for counts >= 2.  Graph search (shortest path with 0/1 weights), no values."""
+        import heapq
+
+        cfg = self.cfg
+        dist = {ENTRY: 0}
+        heap = [(0, 0, ENTRY)]
+        tick = 0
+        while heap:
+            dn, _t, n = heapq.heappop(heap)
+            if dn > dist.get(n, dn):
+                continue
+            st = cfg.stmt.get(n)
+            succs = list(cfg.g.successors(n))
+            cost = 0
+            if isinstance(st, (ast.If, ast.While)):
+                v = self.verdict.get(id(st))
+                if v is True or v is False:
+                    succs = [cfg.edge_node(st, "true" if v else "false")]
+                elif v == BOTH:
+                    cost = 1
+                else:
+                    succs = []
+            elif isinstance(st, (ast.For, ast.AsyncFor)):
+                succs = []
+            elif isinstance(st, ast.Raise):
+                h = (caught or {}).get(id(st))
+                succs = [cfg.node(h)] if h is not None and cfg.has(h) else []
+            for x in succs:
+                if x not in self.IN or x[0] in ("fin", "raise") or not cfg.g.has_edge(n, x) or (isinstance(cfg.stmt.get(x), ast.ExceptHandler) and not isinstance(st, ast.Raise)):
+                    continue
+                if dn + cost < dist.get(x, 1 << 30):
+                    dist[x] = dn + cost
+                    tick += 1
+                    heapq.heappush(heap, (dn + cost, tick, x))
+        return dist
 
 
 # ------------------------------------------------------------------------------------------------- attribute stores
@@ -802,12 +969,16 @@ def run(ctx):
         "with the symbolic magic decided by interval lemmas; infeasible edges pruned), writer/reader agreement on the "
         "magic and the RSA cipher construction, the PKCS#1 v1.5 length bound as a linear form, and role checks of every "
         "session-key derivation (SHA-256 halves by normalised constant slice bounds reaching aes_key / hmac_key slots, "
-        "derived from the 16 aes_rand bytes).  No code of the repository is executed or evaluated on sample inputs."
+        "derived from the 16 aes_rand bytes), and acceptance of every well-formed metadata by decrypt_metadata: no raise / "
+        "failing assert is reached when the parsed fields range over the domain read from C2_DEF (magic 0xBEEF, size field "
+        "51 + len(info) as the interval [51, 237], every other integer field the interval of its width; branch tests decided "
+        "by interval lemmas).  No code of the repository is executed or evaluated on sample inputs."
     )
     rep.not_decided = [
         "field-for-field equality after RSA for all values (cstruct dumps/parse round trip and RSA are library behaviour)",
         "PKCS#1 v1.5 limits (library)",
         "rejection tests of decrypt_metadata that combine several correlated comparisons of the magic, or compute with the plaintext, are reported undecided",
+        "R8: rejections of decrypt_metadata guarded by two or more undecided-by-one-lemma tests, by tests of array fields / of the plaintext content / of the key, or inside loops are reported undecided; RSA keys other than 1024 / 2048 bits are outside the domain (size field bounded by the RSA-2048 limit)",
     ]
     rep.trusted_base = [
         "CPython ast", "networkx dominators", "C-definition parser",
@@ -816,10 +987,13 @@ def run(ctx):
         "lemma: for an unsigned w-bit field value v not in a finite set ne, `v <op> k` has a true (false) instance iff the interval / point set of field values that makes it true (false) contains a value outside ne (counted, not enumerated)",
         "lemma: x & (2^w - 1) == x for 0 <= x < 2^w; (v & M) == (c & M) has both outcomes for v != c when M is neither 0 nor all ones (flip a bit outside / inside M)",
         "lemma: over the integers a >= b <=> a - b + 1 > 0 and not (a > b) <=> b - a + 1 > 0 (linear normal form of the length bound)",
+        "R8 domain: a metadata produced by encrypt_metadata has size = len - 8 = 51 + len(info) (R1) with 59 + len(info) <= modulus - 11 (PKCS#1 v1.5), every other field any value of its C type; the parse of such a plaintext does not raise (dissect.cstruct)",
+        "dissect.cstruct: the fields of a default-constructed structure are 0 / empty and an array of non-positive computed length serialises to nothing (len(BeaconMetadata()) == fixed part)",
+        "lemmas: [lo, hi) +/- c is the shifted interval (Python integers do not wrap); s + a <op> s + b <=> a <op> b; an integer is truthy iff it is != 0; equal values of builtin types have equal truthiness",
     ]
     from csverif import AnalysisError
 
-    for rule in (r1, r2, r3_r4, r5, r6):
+    for rule in (r1, r2, r3_r4, r5, r6, r8):
         try:
             rule(ctx)
         except AnalysisError:
@@ -953,11 +1127,20 @@ def _struct_parses(ctx, f):
     return [c for c in fn_calls(f.node) if ctx.rs.resolve_call(f, c).kind == "struct"]
 
 
-def _scenario(ctx, f, d, result, magic=None, also=()):
+def _scenario(ctx, f, d, result, magic=None, also=(), fields=None, no_exceptions=False):
     """Value flow through decrypt_metadata when the RSA decryption `d` yields `result` and (if given) every parsed struct
-    has the magic field `magic`.  A test of the object *parsed from* the result is not a test of the result itself."""
+    has the magic field `magic` (the fields `fields`: {name: value}).  A test of the object *parsed from* the result is
+    not a test of the result itself."""
     fn = f.node
     fixed = _Env(consts=_cenv(ctx, f))
+    fields = dict(fields or {})
+    if magic is not None:
+        fields["magic"] = magic
+    for c in fn_calls(fn):
+        for e in (c, inline(fn, c)):
+            n = _default_struct_len(ctx, f.module.name, e)
+            if n is not None:
+                dict.__setitem__(fixed, src(e), n)
     dtexts = {src(d), src(inline(fn, d))}
     for t in dtexts | set(also):
         dict.__setitem__(fixed, t, result)
@@ -969,9 +1152,9 @@ def _scenario(ctx, f, d, result, magic=None, also=()):
         for t in (src(c), src(inline(fn, c))):
             dict.__setitem__(fixed, t, sym)
             stop.add(t)
-        if magic is not None:
-            dict.__setitem__(fixed, (sym.label, "magic"), magic)
-    fl = _Flow(ctx, f, fixed, taint=dtexts, stop=stop, magic_attr="magic" if magic is not None else None)
+        for name, value in fields.items():
+            dict.__setitem__(fixed, (sym.label, name), value)
+    fl = _Flow(ctx, f, fixed, taint=dtexts, stop=stop, magic_attr=set(fields), no_exceptions=no_exceptions)
     fl.parses = syms
     return fl
 
@@ -1809,3 +1992,158 @@ def r6(ctx):
     else:
         ctx.ob("R6", "DOM", f, "empty plaintext rejected", not reach, "an empty decryption result never reaches the struct parse" if not reach else
                "an empty (but not None) decryption result reaches BeaconMetadata(pt): with pycryptodome >= 3.20 a padding failure yields b'' for a non-bytes sentinel", dst)
+
+
+# ================================================================================================================== R8
+_MAX_MODULUS = 256  # bytes of the largest modulus in the property's quantifier (RSA-2048)
+_PKCS1_OVERHEAD = 11  # PKCS#1 v1.5: a message of more than k - 11 bytes cannot be encrypted
+
+
+def _wellformed_fields(ctx):
+    """({field: assumed value}, description) for "a metadata that encrypt_metadata produced" - the domain the property
+    quantifies over, read from the C definition: the magic is 0xBEEF; the length field named by the trailing array
+    `info[<field> - k]` is k + len(info) with 0 <= len(info) and fixed part + len(info) <= modulus - 11, i.e. the interval
+    [k, k + 256 - 11 - fixed]; every other integer field is any value of its width; array fields are opaque.
+    (None, why) if the layout is not of that shape."""
+    from csverif import AnalysisError
+
+    try:
+        cd = ctx.cdefs("c_c2").get("c2struct")
+        s = cd.struct("BeaconMetadata") if cd is not None else None
+    except AnalysisError as e:
+        return None, str(e)
+    if s is None or not s.fields:
+        return None, "struct BeaconMetadata not found"
+    info = s.fields[-1]
+    lf = _count_form(info)
+    names = [k for k in (lf or {}) if k]
+    if lf is None or info.size is not None or len(names) != 1 or lf[names[0]] != 1 or any(x.size is None for x in s.fields[:-1]):
+        return None, f"the variable part is not a trailing array `[<length field> - k]` (got [{info.count}])"
+    lenf, k = names[0], -lf.get("", 0)
+    fixed = s.fixed_prefix_size
+    lo, hi = k, k + _MAX_MODULUS - _PKCS1_OVERHEAD - fixed
+    out = {}
+    for x in s.fields:
+        if x.count is not None or x.size is None:
+            out[x.name] = _Sym(f"field {x.name}", notnone=True)
+        elif x.name == lenf:
+            out[x.name] = _Sym(f"field {x.name}", notnone=True, width=None if x.signed else 8 * x.size, rng=(lo, hi + 1))
+        elif x.signed:
+            out[x.name] = _Sym(f"field {x.name}", notnone=True, rng=(-(1 << (8 * x.size - 1)), 1 << (8 * x.size - 1)))
+        else:
+            out[x.name] = _Sym(f"field {x.name}", notnone=True, width=8 * x.size)
+    out["magic"] = MAGIC
+    # the plaintext (the serialised metadata) has fixed + len(info) = <length field> + (fixed - k) bytes
+    out[None] = _Sym("len(plaintext)", notnone=True, rng=(fixed, _MAX_MODULUS - _PKCS1_OVERHEAD + 1), affine=(out[lenf], fixed - k))
+    return out, (f"magic 0xBEEF, {lenf} = {k} + len({info.name}) in [{lo}, {hi}] (every {info.name} length from 0 up to the PKCS#1 v1.5 limit of "
+                 f"RSA-{8 * _MAX_MODULUS}: {_MAX_MODULUS} - {_PKCS1_OVERHEAD} - {fixed} fixed bytes), every other integer field any value of its width")
+
+
+def _catches(handler, cls):
+    """Does `except <handler.type>` catch an exception of class `cls`?  True / False, None = not known (a class that is not
+    a builtin exception: its bases are not known).  Class names are resolved with Python's builtin exception hierarchy."""
+    import builtins
+
+    if handler.type is None:
+        return True
+    if cls is None:
+        return None
+    c = getattr(builtins, cls.split(".")[-1], None) if "." not in cls or cls.startswith("builtins.") else None
+    verdict = False
+    for t in (handler.type.elts if isinstance(handler.type, ast.Tuple) else [handler.type]):
+        n = dotted(t)
+        h = getattr(builtins, n, None) if n and "." not in n else None
+        if n and n == cls:
+            return True
+        if not (isinstance(c, type) and issubclass(c, BaseException) and isinstance(h, type) and issubclass(h, BaseException)):
+            verdict = None
+        elif issubclass(c, h):
+            return True
+    return verdict
+
+
+def _local_handler(fv, r, cls):
+    """The handler inside the function that catches the exception of class `cls` raised by `r` (a raise in a `try` body),
+    None if it leaves the function, "?" if that is not known."""
+    child = r
+    for a in fv.ancestors(r):
+        if isinstance(a, ast.Try) and any(child is b for b in a.body):
+            for h in a.handlers:
+                c = _catches(h, cls)
+                if c is None:
+                    return "?"
+                if c:
+                    return h
+            if a.finalbody:
+                return "?"
+        child = a
+    return None
+
+
+def r8(ctx):
+    """Every metadata that encrypt_metadata can produce is accepted by decrypt_metadata: no rejection (raise / failing
+    assert) is reached for a value of the domain of well-formed metadata."""
+    f, d, ctor = _decrypt_subject(ctx)
+    fn = f.node
+    text = "well-formed metadata is not rejected"
+    if any(isinstance(n, ast.Match) for n in ast.walk(fn)):
+        ctx.undecided("R8", "ABS", f, text, "decrypt_metadata branches with `match` statements, which the control-flow graph does not model")
+        return
+    if d is None:
+        ctx.undecided("R8", "ABS", f, text, f"cannot locate the PKCS#1 decryption: {ctor}")
+        return
+    fields, desc = _wellformed_fields(ctx)
+    if fields is None:
+        ctx.undecided("R8", "ABS", f, text, f"domain of well-formed metadata not established: {desc}")
+        return
+    cfg = ctx.cfg(f)
+    fv = FuncView.of(fn)
+    plain = _Sym("plaintext", truth=True, notnone=True, pytype=bytes, length=fields.pop(None))
+    fl = _scenario(ctx, f, d, plain, fields=fields, no_exceptions=True)
+    raises = cfg.raise_stmts()
+    cls_of = {id(r): _raise_cls(fv, r, fl) for r in raises}
+    handler = {id(r): _local_handler(fv, r, cls_of[id(r)]) for r in raises}
+    dist = fl.both_count({k: h for k, h in handler.items() if isinstance(h, ast.ExceptHandler)})
+
+    def conds(node):
+        """The branch outcomes that dominate `node` and are not decided by the assumptions."""
+        out = []
+        for st in cfg.stmt.values():
+            if isinstance(st, (ast.If, ast.While)) and fl.verdict.get(id(st)) not in (True, False):
+                for label in ("true", "false"):
+                    if cfg.dominates(cfg.edge_node(st, label), cfg.node(node)):
+                        out.append(("" if label == "true" else "not ") + f"`{src(st.test)[:60]}`")
+        return out
+
+    # a raise that a handler of the function catches is a jump to that handler (whose own outcome is judged), not a rejection
+    rejections = [(r, None) for r in raises if not isinstance(handler[id(r)], ast.ExceptHandler)]
+    rejections += [(a, a.test) for a in statements(fn) if isinstance(a, ast.Assert) and cfg.has(a)]
+    for r, test in rejections:
+        what = src(r).split("\n")[0][:60]
+        if not fl.live(r):
+            ctx.ob("R8", "ABS", f, text, True, f"`{what}` is not reached for a well-formed metadata ({desc}; no library call raises)", r)
+            continue
+        n = dist.get(cfg.node(r))
+        if test is not None:
+            # an assert rejects when its test is false
+            v = fl._truth3(test, fl.IN[cfg.node(r)][0])
+            if v is True:
+                ctx.ob("R8", "ABS", f, text, True, f"`{what}` holds for every well-formed metadata ({desc})", r)
+                continue
+            if v == BOTH and n is not None:
+                n += 1
+            elif v is not False:
+                n = None
+            escapes = _local_handler(fv, r, "AssertionError") is None
+            why = conds(r) + [f"not `{src(test)[:60]}`"]
+        else:
+            escapes = handler[id(r)] is None
+            why = conds(r)
+        if n is not None and n <= 1 and escapes:
+            ctx.ob("R8", "ABS", f, text, False,
+                   f"decrypt_metadata rejects a metadata that encrypt_metadata produces: `{what}` is reached "
+                   + (f"when {' and '.join(why)}, which is true for some well-formed metadata" if n == 1 and why else "for every well-formed metadata")
+                   + f" (domain: {desc}); encrypt -> decrypt does not round-trip for those values", r)
+        else:
+            ctx.undecided("R8", "ABS", f, text, f"`{what}` may be reached for a well-formed metadata, under conditions that could not be evaluated over its domain "
+                          f"({' and '.join(why) or 'none located'}; domain: {desc})", r)
